@@ -29,6 +29,8 @@ KINDS = {
     "empty": "select i, s from srvt where 1 = 0",
     "table": "select i, s, ts from srvt order by i",
     "dupnames": "select 1 as a, 2 as a",
+    "dupnames_types": "select 12.34::number(10,2) as amount, 1.2345::number(12,4) as amount, 'x' as amount, 7::int as amount",
+    "showsc": "show terse schemas",
     "insert": "insert into srvt (i, s) values (100, 'x'), (101, null)",
     "update0": "update srvt set s = 'z' where i = -5",
     "update1": "update srvt set s = 'z' where i = 1",
@@ -90,7 +92,7 @@ class C17(Prop):
         "in-process connection; rows (values and Python classes), description (name, type code, precision, scale), rowcount and error "
         "(class, errno, sqlstate, message) are compared",
         "normalisations: bytes == bytearray (the real connector hands out bytearray); tz-aware datetimes by instant and UTC offset",
-        "login modes shared / isolated (path-backed instances are exercised under C18); up to MaxSess sessions; 28 statement kinds",
+        "login modes shared / isolated (path-backed instances are exercised under C18); up to MaxSess sessions, with or without a schema in the login; 30 statement kinds",
         "all 10^6 microsecond fractions x 4 epochs go through the Arrow struct encoder against the closed form epoch = floor(us / 1e6), "
         "fraction = (us mod 1e6) * 1000; thorough also pushes a stride of them through HTTP",
     ]
@@ -180,9 +182,11 @@ class C17(Prop):
             try:
                 if k == "login":
                     db = f"{tag}{op['db']}"
-                    sc = srv.connect(op["mode"], db, "S1")
-                    mi = (mirror_shared if op["mode"] == "shared" else fakesnow.instance.FakeSnow()).connect(db, "S1")
-                    for c in (sc, mi):
+                    has_sch = op.get("sch", True)
+                    sc = srv.connect(op["mode"], db, "S1" if has_sch else None)
+                    mi_fs = mirror_shared if op["mode"] == "shared" else fakesnow.instance.FakeSnow()
+                    mi = mi_fs.connect(db, "S1") if has_sch else mi_fs.connect(db)
+                    for c in ((sc, mi) if has_sch else ()):
                         cu = c.cursor()
                         cu.execute("create table if not exists srvt (i int, s varchar, ts timestamp_ntz, n number)")
                         cu.execute("create table if not exists shp (a number(10,2))")
